@@ -70,6 +70,17 @@ theorem dot_counterexample :
     (runDot 2 [(0, ⟨[0], 100⟩), (0, ⟨[0, 0], 5⟩), (1, ⟨[0], 7⟩)]).out.length = 2 := by
   decide +kernel
 
+/-- **Negative witness (exception).** Without the antichain condition `_product` can reach `num_items ≥ 2`;
+    its loop variable `tag` is re-assigned inside the inner loop, the second iteration pops from another cell
+    and `pop()` raises `IndexError` — after five emissions on this 3-port stream without duplicate tags.
+    Reproduces on the real class (known finding). -/
+theorem dot_index_error_witness :
+    (runDot 3 [(0, ⟨[0, 0, 0, 0], 0⟩), (2, ⟨[0], 1⟩), (0, ⟨[0, 0, 0], 2⟩), (1, ⟨[0], 3⟩), (0, ⟨[0, 0], 4⟩),
+      (1, ⟨[0, 0], 5⟩), (2, ⟨[0, 0, 0, 0], 6⟩)]).err = some Err.indexError ∧
+    (runDot 3 [(0, ⟨[0, 0, 0, 0], 0⟩), (2, ⟨[0], 1⟩), (0, ⟨[0, 0, 0], 2⟩), (1, ⟨[0], 3⟩), (0, ⟨[0, 0], 4⟩),
+      (1, ⟨[0, 0], 5⟩), (2, ⟨[0, 0, 0, 0], 6⟩)]).out.length = 5 := by
+  decide +kernel
+
 /-- the full-strength statement (every stream with distinct events, without the prefix-antichain condition) is
     FALSE of the code -/
 theorem dot_any_order_full_false :
